@@ -45,8 +45,13 @@ func runC10(p *Prog, r *Report) {
 	c10Inodes(p, r, e)
 	counterOnlyIncrements(p, r, "D1-inodes", "walkContext", "inodesVisited", "extractor/filesystem", "the inode visit counter is written other than by its increment (e.g. reset for every scan root): the limit stops being a bound on the whole scan — k roots may visit k × MaxInodes inodes and the scan still succeeds")
 	c10Size(p, r, e)
+	// the size the limit is compared with is the current file's: the lazy stat cache is reset for
+	// every file (shared with C01 D1-fileapi)
+	checkFileAPI(p, r, e, "D2-size")
 	c10Cancel(p, r, e)
 	c10Image(p, r)
+	r.Rule("D5-config-plumbing", "every extraction the scanner configures runs under the scan's own limits")
+	configPlumbing(p, r, "D5-config-plumbing")
 }
 
 func c10Inodes(p *Prog, r *Report, e *engine) {
